@@ -165,6 +165,8 @@ inline size_t fact(size_t n) { size_t f = 1; for (size_t i = 2; i <= n; i++) f *
 inline std::vector<size_t> rot_of(size_t n, size_t r) { std::vector<size_t> p(n); for (size_t i = 0; i < n; i++) p[i] = (r + i) % n; return p; }
 inline std::string perm_str(const std::vector<size_t> &p) { std::string s; for (size_t i = 0; i < p.size(); i++) s += (char)('0' + p[i]); return s; }
 
+inline Tag weak(Tag t, const char *w) { t.weak = w; return t; }
+
 // the verifier instance "as if constructed with these parameters": the fixed-base tables follow g, h, p
 inline void vtmf_sync(BarnettSmartVTMF_dlog *V)
 {
@@ -177,8 +179,11 @@ inline void group_pubins(const Cell &c, BarnettSmartVTMF_dlog *V, std::vector<Pu
 	std::function<void()> sy = [V]() { vtmf_sync(V); };
 	PubIn a; a.name = "group.p", a.target = V->p, a.sync = sy, a.tag = c.T(K_EXACT, "group.p"); out.push_back(a);
 	PubIn b; b.name = "group.q", b.target = V->q, b.sync = sy, b.tag = c.T(K_EXACT, "group.q"); out.push_back(b);
-	PubIn g; g.name = "group.g", g.target = V->g, g.sync = sy, g.tag = c.T(K_ELEM, "group.g"); out.push_back(g);
-	if (with_h) { PubIn h; h.name = "key.h", h.target = V->h, h.sync = sy, h.tag = c.T(K_ELEM, "key.h"); out.push_back(h); }
+	// generators and keys are raised to transmitted exponents: the non-member -g in place of g goes unnoticed whenever
+	// that exponent is even unless the value is hashed; membership of group parameters is CheckGroup's business
+	// ("order2-input": recorded, not judged)
+	PubIn g; g.name = "group.g", g.target = V->g, g.sync = sy, g.tag = weak(c.T(K_ELEM, "group.g"), "order2-input"); out.push_back(g);
+	if (with_h) { PubIn h; h.name = "key.h", h.target = V->h, h.sync = sy, h.tag = weak(c.T(K_ELEM, "key.h"), "order2-input"); out.push_back(h); }
 }
 inline PubIn pub_elem(const Cell &c, const std::string &name, mpz_ptr t, Kind k = K_ELEM)
 {
@@ -198,7 +203,6 @@ inline std::string replace_lines(const std::string &text, const std::vector<size
 inline Z line_value(const std::string &text, size_t idx) { Z v; v.parse(split_lines(text)[idx]); return v; }
 inline std::vector<size_t> ix(size_t a) { std::vector<size_t> v; v.push_back(a); return v; }
 inline std::vector<size_t> ix(size_t a, size_t b) { std::vector<size_t> v; v.push_back(a), v.push_back(b); return v; }
-inline Tag weak(Tag t, const char *w) { t.weak = w; return t; }
 
 // ================================================================================================ VTMF: key share
 struct KeySt { World *W; BarnettSmartVTMF_dlog *V; JareckiLysyanskayaEDCF *eP, *eV; Z key; int mode; uint64_t seed;
@@ -256,7 +260,10 @@ inline CellP make_key(World &W, int mode /*0 nizk, 1 interactive, 2 public coin*
 	};
 	c->pubins = [cp, st](const RunOut &, std::vector<PubIn> &out) {
 		group_pubins(*cp, st->V, out, false);
-		if (st->mode != 0) { PubIn k = pub_elem(*cp, "key", st->key); k.neighbours.push_back(Z(st->W->B->h_i)); out.push_back(k); }
+		// interactive Schnorr proof in the safe-prime group: q is used only as the bound of the response (membership is a
+		// Legendre symbol there), so a larger q is not noticed and nothing is asserted for it
+		if (st->mode != 0 && st->W->qr) for (size_t i = 0; i < out.size(); i++) if (out[i].name == "group.q") out[i].tag.covered = false;
+		if (st->mode != 0) { PubIn k = weak_pub(pub_elem(*cp, "key", st->key), "order2-input"); k.neighbours.push_back(Z(st->W->B->h_i)); out.push_back(k); }
 	};
 	return c;
 }
